@@ -215,6 +215,9 @@ func (x *Exec) hostileBytes(c *Client, st *Step) (data []byte, class string) { /
 // opHostile delivers a hostile datagram to the listener and probes liveness afterwards (C09).
 func (x *Exec) opHostile(st *Step) {
 	c := x.client(st.C)
+	if c.Stream {
+		return // hostile streams are the TCP world's business
+	}
 	data, class := x.hostileBytes(c, st)
 	if len(data) > 65507 {
 		data = data[:65507]
